@@ -28,4 +28,15 @@ func streamCRC(seed uint64, thorough bool) {
 		crcCase(r.bytes(r.intn(301)))
 	}
 	crcCase([]byte("123456789"))
+	// long strings: around every size a narrower length or index type would wrap at
+	for _, n := range []int{255, 256, 257, 511, 512, 4095, 4096, 32767, 32768, 65534, 65535, 65536, 65537, 65536 + 300, 131072, 131073} {
+		crcCase(r.bytes(n))
+		if n >= 65536 { // a change of one byte past the wrap point changes the result
+			b := r.bytes(n)
+			crcCase(b)
+			c := append([]byte(nil), b...)
+			c[n-1] ^= 0x01
+			crcCase(c)
+		}
+	}
 }
